@@ -287,6 +287,10 @@ func cmdCheck(args []string) int {
 						if f == v.Label || strings.HasPrefix(v.Label, "implicit:") && strings.HasPrefix(f, "panic:") {
 							confirmed = true
 						}
+						// a caller blocked forever shows natively as its (real-time) deadline failing an assertion
+						if strings.HasPrefix(v.Label, "implicit: deadlock") {
+							confirmed = true
+						}
 					}
 				}
 				detail = fmt.Sprintf("native: ran=%v failed=%v assumeFailed=%v err=%s", res.Ran, res.Failed, res.AssumeFailed, res.Err)
@@ -330,7 +334,7 @@ func unexpectedFailures(failed []string, vs []*Violation) bool {
 	for _, f := range failed {
 		ok := false
 		for _, v := range vs {
-			if v.Label == f || strings.HasPrefix(v.Label, "implicit:") && strings.HasPrefix(f, "panic:") {
+			if v.Label == f || strings.HasPrefix(v.Label, "implicit:") && strings.HasPrefix(f, "panic:") || strings.HasPrefix(v.Label, "implicit: deadlock") {
 				ok = true
 			}
 		}
